@@ -38,4 +38,46 @@ PROPS = {
         'corr': [step_run([COMMIT, STATE, RES], [M_C02])],
         'rule': STEP_RULE, 'assumptions': STEP_ASSUME,
     },
+    'C01': {
+        'vo': NODE_VO,
+        'sites': ['g_safety_rule_1', 'g_safety_rule_2', 'g_can_extend', 'g_can_extend_hq', 'g_two_chain', 'g_update_high_qc', 'g_vote_stale', 'g_timeout_stale', 'g_tc_stale', 'g_advance_guard', 'g_advance_next', 'g_round_gate', 'g_quorum_consensus', 'g_commit_skip', 'g_commit_walk', 'g_commit_stop'],
+        'corr': [step_run([NET, COMMIT, PROP, RES, STATE], [M_C02, M_C05])],
+        'rule': STEP_RULE, 'assumptions': STEP_ASSUME + ['network model: the adversary may deliver to any honest node, at any time and any number of times, any message all of whose honest signatures exist'],
+    },
+    'C03': {
+        'vo': NODE_VO,
+        'sites': ['g_safety_rule_1', 'g_safety_rule_2', 'g_can_extend', 'g_can_extend_hq', 'g_round_gate', 'g_advance_guard', 'g_advance_next', 'g_update_high_qc'],
+        'corr': [step_run([NET, RES, STATE], [M_C03, M_C03G])],
+        'rule': STEP_RULE, 'assumptions': STEP_ASSUME,
+    },
+    'C05': {
+        'vo': NODE_VO,
+        'sites': ['g_two_chain', 'g_commit_skip', 'g_commit_walk', 'g_commit_stop', 'g_quorum_consensus'],
+        'corr': [step_run([COMMIT, STATE], [M_C05])],
+        'rule': STEP_RULE, 'assumptions': STEP_ASSUME,
+    },
+    'C08': {
+        'vo': NODE_VO,
+        'sites': [],
+        'corr': [step_run([NET, COMMIT, MEM, STATE], [M_C08])],
+        'rule': STEP_RULE, 'assumptions': STEP_ASSUME + ['the mempool Processor queues the store write before announcing the digest (ev_av); decided for the real Processor by the C11/C13 component checks'],
+    },
+    'C09': {
+        'vo': NODE_VO,
+        'sites': ['g_round_gate', 'g_vote_stale', 'g_timeout_stale', 'g_tc_stale', 'g_advance_guard', 'g_advance_next'],
+        'corr': [step_run([NET, PROP], [M_C09])],
+        'rule': STEP_RULE, 'assumptions': STEP_ASSUME + ['the boot event (first lines of run()) happens once, before any proposal'],
+    },
+    'C10': {
+        'vo': NODE_VO,
+        'sites': ['g_advance_guard', 'g_advance_next', 'g_update_high_qc', 'g_vote_stale', 'g_timeout_stale', 'g_tc_stale'],
+        'corr': [step_run([NET, STATE], [M_C10])],
+        'rule': STEP_RULE, 'assumptions': STEP_ASSUME,
+    },
+    'C19': {
+        'vo': NODE_VO,
+        'sites': ['g_quorum_consensus', 'g_vote_stale', 'g_timeout_stale'],
+        'corr': [step_run([NET, PROP, STATE], [M_C19])],
+        'rule': STEP_RULE, 'assumptions': STEP_ASSUME,
+    },
 }
